@@ -534,7 +534,8 @@ func tie(m modelAns, o Outcome, r runSpec) string {
 		return "error line differs: model " + m.raw + " implementation " + o.String()
 	}
 	// the column of an end-of-input error depends on a stale loop variable of the fast paths: not modelled
-	if m.kind != "notclosed" && m.kind != "incomplete" && m.kind != "bom" && fmt.Sprint(o.Col) != m.col {
+	// (the model marks the errors it raises at the end of the input with z)
+	if m.kind != "notclosed" && m.kind != "incomplete" && m.kind != "bom" && !strings.Contains(m.feat, "z") && fmt.Sprint(o.Col) != m.col {
 		return "error column differs: model " + m.raw + " implementation " + o.String()
 	}
 	return ""
